@@ -307,6 +307,22 @@ func (g *opGen) mutateSpec(a kaiv1.ConfigSpec) (kaiv1.ConfigSpec, []string) {
 		if b.NodeScaleAdjuster != nil {
 			add("nodeScaleAdjuster-off", off("nodeScaleAdjuster", &b.NodeScaleAdjuster.Service))
 		}
+		if b.Scheduler != nil {
+			add("scheduler-off", off("scheduler", &b.Scheduler.Service))
+		}
+		// everything off: the desired state of B is (nearly) empty, so the whole change consists of deletions
+		allOff := func() bool {
+			any := false
+			for _, c := range cands {
+				if c.name != "all-off" && c.f() {
+					any = true
+				}
+			}
+			return any
+		}
+		for i := 0; i < 3; i++ {
+			add("all-off", allOff)
+		}
 		if len(cands) > 0 {
 			c := cands[g.r.IntN(len(cands))]
 			if c.f() {
